@@ -1970,7 +1970,9 @@ class FuncGraph:
                 'numpy.any': (1,), 'numpy.all': (1,), 'numpy.std': (1,), 'numpy.var': (1,), 'numpy.argmax': (1,), 'numpy.argmin': (1,), 'numpy.cumsum': (1,), 'numpy.cumprod': (1,),
                 'numpy.squeeze': (1,), 'numpy.take': (2,), 'numpy.take_along_axis': (2,), 'numpy.moveaxis': (1, 2), 'numpy.swapaxes': (1, 2), 'numpy.rollaxis': (1,),
                 'numpy.concatenate': (1,), 'numpy.median': (1,), 'numpy.percentile': (2,), 'numpy.sort': (1,), 'numpy.argsort': (1,), 'numpy.flip': (1,), 'numpy.repeat': (2,),
-                'numpy.delete': (2,), 'numpy.compress': (2,), 'numpy.trace': (2, 3), 'numpy.diagonal': (2, 3), 'scipy.special.logsumexp': (1,), 'numpy.expand_dims': (1,), 'numpy.stack': (1,)}
+                'numpy.delete': (2,), 'numpy.compress': (2,), 'numpy.trace': (2, 3), 'numpy.diagonal': (2, 3), 'scipy.special.logsumexp': (1,), 'numpy.expand_dims': (1,), 'numpy.stack': (1,),
+                'numpy.diff': (2,), 'numpy.roll': (2,), 'numpy.nanmax': (1,), 'numpy.nanmin': (1,), 'numpy.nansum': (1,), 'numpy.nanmean': (1,), 'numpy.count_nonzero': (1,),
+                'numpy.apply_along_axis': (), 'numpy.split': (2,), 'numpy.array_split': (2,), 'numpy.unique': (), 'numpy.linalg.det': ()}
     AXIS_KW = ('axis', 'axis1', 'axis2', 'source', 'destination')
     METHOD_AXIS_POS = {'sum': (0,), 'mean': (0,), 'max': (0,), 'min': (0,), 'prod': (0,), 'any': (0,), 'all': (0,), 'std': (0,), 'var': (0,), 'argmax': (0,), 'argmin': (0,),
                        'cumsum': (0,), 'cumprod': (0,), 'squeeze': (0,), 'swapaxes': (0, 1), 'take': (1,), 'repeat': (1,)}
@@ -1999,8 +2001,13 @@ class FuncGraph:
                 out.append(y)
                 if y.op in ('refine', 'mu'):
                     stack.append(y.args[0])
-                elif y.op in ('binop', 'iop') and y.args[0] in ('Add', 'Sub', 'Mult', 'Div', 'Pow'):
-                    stack += [z for z in (y.args[1], y.args[2]) if isinstance(z, T) and z.op != 'const']
+                elif y.op == 'iop' and y.args[0] in ('Add', 'Sub', 'Mult', 'Div', 'Pow'):
+                    stack.append(y.args[1])          # x /= y keeps the shape of x
+                elif y.op == 'binop' and y.args[0] in ('Add', 'Sub', 'Mult', 'Div', 'Pow'):
+                    # (with two array operands the result has the rank of the larger one: only an operation with a literal number keeps the rank for certain)
+                    arrs = [z for z in (y.args[1], y.args[2]) if isinstance(z, T) and not (z.op == 'const' and isinstance(z.args[0], (int, float, complex)))]
+                    if len(arrs) == 1:
+                        stack.append(arrs[0])
                 elif y.op == 'attr' and y.args[1] in ('real', 'imag'):
                     stack.append(y.args[0])
                 elif y.op == 'gamma':
@@ -2027,14 +2034,16 @@ class FuncGraph:
         if t.op in ('refine', 'mu'):
             return self._rank_of(t.args[0], depth + 1, want)
         if t.op in ('binop', 'iop') and t.args[0] in ('Add', 'Sub', 'Mult', 'Div', 'Pow'):
-            first = None
+            # the result has the rank of the operand with the most axes (broadcasting): known only when all array operands agree; a literal number has none
+            rs = []
             for z in (t.args[1], t.args[2]):
-                if isinstance(z, T) and z.op != 'const':
-                    r = self._rank_of(z, depth + 1, want)
-                    if r is not None and (want is None or r[0] is want):
-                        return r
-                    first = first or r
-            return first          # (operands of one elementwise operation that is not a broadcast have the same rank: any of them tells it)
+                if isinstance(z, T) and not (z.op == 'const' and isinstance(z.args[0], (int, float, complex)) and not isinstance(z.args[0], bool)):
+                    rs.append(self._rank_of(z, depth + 1, want))
+            if rs and all(r is not None for r in rs) and all(r[0] is rs[0][0] and r[1] == rs[0][1] for r in rs):
+                return rs[0]
+            if t.op == 'iop' and rs and rs[0] is not None:
+                return rs[0]          # x /= y keeps the shape of x
+            return t, 0
         if t.op == 'attr' and t.args[1] in ('real', 'imag', 'T', 'mT'):
             return self._rank_of(t.args[0], depth + 1, want)
         if t.op == 'sub' and t.args[1].op == 'tuple':
@@ -2065,6 +2074,7 @@ class FuncGraph:
                     'numpy.ascontiguousarray', 'numpy.maximum', 'numpy.minimum', 'numpy.clip', 'numpy.real', 'numpy.imag', 'numpy.zeros_like', 'numpy.ones_like', 'numpy.empty_like',
                     'numpy.nan_to_num', 'numpy.transpose', 'numpy.swapaxes', 'numpy.moveaxis', 'method:copy', 'method:astype', 'method:conj', 'method:conjugate', 'method:transpose',
                     'method:swapaxes', 'numpy.cumsum', 'numpy.cumprod', 'numpy.sort', 'numpy.flip', 'numpy.angle', 'numpy.sign', 'numpy.negative', 'numpy.reciprocal',
+                    'numpy.take_along_axis', 'numpy.argsort', 'numpy.diff', 'numpy.roll',
                     'numpy.log10', 'numpy.cos', 'numpy.sin', 'numpy.isfinite', 'numpy.isnan', 'numpy.where')
             if nm in same:
                 return self._rank_of(opnd, depth + 1, want)
@@ -2148,6 +2158,21 @@ class FuncGraph:
                 return x
             return cand is not None and strip(cand) is strip(shp)
 
+        def same_root(x, y):
+            # the same term, or the same attribute path of the same object read twice (self.mean ... self.mean.ndim)
+            for _ in range(6):
+                while isinstance(x, T) and x.op == 'refine':
+                    x = x.args[0]
+                while isinstance(y, T) and y.op == 'refine':
+                    y = y.args[0]
+                if x is y:
+                    return True
+                if isinstance(x, T) and isinstance(y, T) and x.op == 'attr' and y.op == 'attr' and x.args[1] == y.args[1]:
+                    x, y = x.args[0], y.args[0]
+                    continue
+                return False
+            return False
+
         def offset(src):
             # rank(operand) - rank(src), when both are known relative to the same root (0 when the terms are connected by rank-preserving operations)
             if isinstance(src, tuple) and src[0] == 'shape-of':
@@ -2155,12 +2180,9 @@ class FuncGraph:
             if any(src is x for x in joined):
                 return 0
             r_src = self._rank_of(src)
-            if r_op is not None and r_src is not None and r_op[0] is r_src[0]:
+            if r_op is not None and r_src is not None and same_root(r_op[0], r_src[0]):
                 return r_op[1] - r_src[1]
-            if r_src is not None:
-                r_op2 = self._rank_of(operand, 0, r_src[0])          # a quotient of two differently derived arrays: the operand that shares the root
-                if r_op2 is not None and r_op2[0] is r_src[0]:
-                    return r_op2[1] - r_src[1]
+
             return 0 if self._same_rank(src, operand) else None
 
         def rank_plus(t, depth=0):
@@ -2626,6 +2648,10 @@ class FuncGraph:
         if lib in UFUNC_BINOP and plain and len(args) == 2 and all(k == 'out' for k, _ in kws):
             opn = UFUNC_BINOP[lib]
             if not kws:
+                if opn == 'MatMult':
+                    mm = self._matmul_form(args[0], args[1], e)
+                    if mm is not None:
+                        return mm
                 return self.mk('binop', (opn, args[0], args[1]), e)
             out = kws[0][1]
             if out is args[0]:
@@ -2788,6 +2814,62 @@ class FuncGraph:
                 t = self.mk('call', (self.mk('ref', (Lib('numpy.' + name),), e), (first,), (('dtype', dt),) if dt is not None else ()), e)
                 self.event('call', t, e)
                 return t
+        if f.op == 'attr' and f.args[1] in ('append', 'insert', 'extend') and plain and not kws and isinstance(e.func, ast.Attribute) \
+                and isinstance(e.func.value, ast.Name) and e.func.value.id in env and env[e.func.value.id] is f.args[0] and not self._loops \
+                and not (f.args[0].op == 'list' and not any(x.op == 'star' for x in f.args[0].args[0])):
+            # shape = list(independent); shape.append(N); shape.insert(len(shape) - 1, K): a list whose front is another sequence of unknown length and whose END is written out
+            # is the display [*independent, K, N] as long as the method addresses the written-out end
+            def display(t_, depth=0):
+                if depth > 4:
+                    return None
+                if t_.op in ('list', 'tuple'):
+                    return list(t_.args[0])
+                if t_.op == 'call' and t_.args[0].op == 'ref' and t_.args[0].args[0] in (('builtin', 'list'), ('builtin', 'tuple')) and len(t_.args[1]) == 1 and not t_.args[2] \
+                        and t_.args[1][0].op != 'star':
+                    inner = display(t_.args[1][0], depth + 1)
+                    if inner is not None:
+                        return inner
+                    x_ = t_.args[1][0]
+                    if x_.op in ('param', 'unpack', 'sub', 'attr', 'refine'):
+                        return [self.mk('star', (x_,), x_.node)]          # list(independent): its items, however many
+                    return None
+                if t_.op == 'binop' and t_.args[0] == 'Add':
+                    a_, b_ = display(t_.args[1], depth + 1), display(t_.args[2], depth + 1)
+                    return a_ + b_ if a_ is not None and b_ is not None else None
+                if t_.op == 'unpack' and t_.args[3] is not None and t_.args[3] == t_.args[1] and depth > 0:
+                    return [self.mk('star', (t_,), t_.node)]          # the starred name of `*independent, N, D = x.shape` as an operand of +: its items
+                return None
+            items = display(f.args[0]) if f.args[0].op != 'list' or any(x.op == 'star' for x in f.args[0].args[0]) else None
+            new_items = None
+            if items is not None and f.args[0].op == 'list':
+                items = list(f.args[0].args[0])
+            if items is not None:
+                tail = 0          # number of written-out items at the end
+                while tail < len(items) and items[len(items) - 1 - tail].op != 'star':
+                    tail += 1
+                if f.args[1] == 'append' and len(args) == 1:
+                    new_items = items + [args[0]]
+                elif f.args[1] == 'extend' and len(args) == 1 and args[0].op in ('list', 'tuple') and not any(x.op == 'star' for x in args[0].args[0]):
+                    new_items = items + list(args[0].args[0])
+                elif f.args[1] == 'insert' and len(args) == 2:
+                    k = None
+                    a0 = args[0]
+                    if a0.op == 'const' and isinstance(a0.args[0], int) and not isinstance(a0.args[0], bool) and a0.args[0] < 0:
+                        k = a0.args[0]
+                    elif a0.op == 'binop' and a0.args[0] == 'Sub' and a0.args[2].op == 'const' and isinstance(a0.args[2].args[0], int) and not isinstance(a0.args[2].args[0], bool) \
+                            and a0.args[2].args[0] >= 1 and a0.args[1].op == 'call' and a0.args[1].args[0].op == 'ref' and a0.args[1].args[0].args[0] == ('builtin', 'len') \
+                            and len(a0.args[1].args[1]) == 1 and a0.args[1].args[1][0] is f.args[0]:
+                        k = -a0.args[2].args[0]          # xs.insert(len(xs) - c, v) is xs.insert(-c, v) for a list of at least c items
+                    elif a0.op == 'call' and a0.args[0].op == 'ref' and a0.args[0].args[0] == ('builtin', 'len') and len(a0.args[1]) == 1 and items and items[0].op == 'star' \
+                            and a0.args[1][0] is items[0].args[0] and tail == len(items) - 1:
+                        k = -tail if tail else None          # xs = independent + [N]; xs.insert(len(independent), K): right behind the part of unknown length
+                        if not tail:
+                            new_items = items + [args[1]]
+                    if k is not None and -k <= tail:
+                        new_items = items[:len(items) + k] + [args[1]] + items[len(items) + k:]
+            if new_items is not None:
+                self.bind(e.func.value.id, self.mk('list', (tuple(new_items),), e), env, e)
+                return const(None, e, self.fn)
         if f.op == 'attr' and f.args[1] in ('append', 'insert', 'extend') and plain and not kws and f.args[0].op == 'list' and isinstance(e.func, ast.Attribute) \
                 and isinstance(e.func.value, ast.Name) and e.func.value.id in env and env[e.func.value.id] is f.args[0] \
                 and not any(x.op == 'star' for x in f.args[0].args[0]) and not self._loops:
@@ -3180,38 +3262,9 @@ class FuncGraph:
             if b.op == 'unop' and b.args[0] == 'USub' and not (a.op == 'unop' and a.args[0] == 'USub'):
                 return self.mk('binop', ('Sub', a, b.args[1]), e)
         if isinstance(e.op, ast.MatMult):
-            # swapaxes(A, -1, -2) @ B  is the scatter  einsum('...nd,...nD->...dD', A, B);   A @ swapaxes(B, -1, -2)  is  einsum('...dn,...Dn->...dD', A, B)
-            sa, sb = self._last_two_swapped(a), self._last_two_swapped(b)
-            if (sa is None) != (sb is None):
-                if sa is not None:
-                    letters, ops = ['nd', 'nD'], [sa, b]
-                else:
-                    letters, ops = ['dn', 'Dn'], [a, sb]
-                # an operand scaled by one weight per row / column (w[..., None] * y) is a further operand of the contraction
-                extra = []
-                for k_, o_ in enumerate(list(ops)):
-                    if o_.op == 'binop' and o_.args[0] == 'Mult':
-                        for w_, y_ in ((o_.args[1], o_.args[2]), (o_.args[2], o_.args[1])):
-                            if w_.op == 'sub' and w_.args[1].op == 'tuple' and len(w_.args[1].args[0]) == 2 and w_.args[1].args[0][0].op == 'const' \
-                                    and w_.args[1].args[0][0].args[0] is Ellipsis and w_.args[1].args[0][1].op == 'const' and w_.args[1].args[0][1].args[0] is None:
-                                extra.append((letters[k_][0], w_.args[0]))
-                                ops[k_] = y_
-                                break
-                            # w[..., None, :] / np.expand_dims(w, -2): one weight per entry of the LAST axis
-                            wl_ = None
-                            if w_.op == 'sub' and w_.args[1].op == 'tuple' and len(w_.args[1].args[0]) == 3 and w_.args[1].args[0][0].op == 'const' \
-                                    and w_.args[1].args[0][0].args[0] is Ellipsis and w_.args[1].args[0][1].op == 'const' and w_.args[1].args[0][1].args[0] is None \
-                                    and w_.args[1].args[0][2].op == 'slice' and all(z_.op == 'const' and z_.args[0] is None for z_ in w_.args[1].args[0][2].args):
-                                wl_ = w_.args[0]
-                            elif w_.op == 'call' and w_.args[0].op == 'ref' and isinstance(w_.args[0].args[0], Lib) and w_.args[0].args[0].dotted == 'numpy.expand_dims' \
-                                    and len(w_.args[1]) == 2 and not w_.args[2] and w_.args[1][1].op == 'const' and w_.args[1][1].args[0] == -2:
-                                wl_ = w_.args[1][0]
-                            if wl_ is not None:
-                                extra.append((letters[k_][1], wl_))
-                                ops[k_] = y_
-                                break
-                sub_ = ','.join(['...' + l_ for l_, _ in extra] + ['...' + l_ for l_ in letters]) + '->...dD'
-                return self._libcall('numpy.einsum', (const(sub_, e, self.fn),) + tuple(w_ for _, w_ in extra) + tuple(ops), e)
+            mm = self._matmul_form(a, b, e)
+            if mm is not None:
+                return mm
         if isinstance(e.op, ast.Mult):
             # a[..., :, None] * b[..., None, :]  is the outer product einsum('...d,...D->...dD', a, b)
             ka, kb = self._outer_kind_conj(a, e), self._outer_kind_conj(b, e)
@@ -3223,6 +3276,130 @@ class FuncGraph:
                 if v.op == 'const' and isinstance(v.args[0], float) and v.args[0] == 0.5 and u.op != 'const':
                     return self.mk('binop', ('Div', u, const(2, e, self.fn)), e)
         return self.mk('binop', (type(e.op).__name__, a, b), e)
+
+    def _matmul_form(self, a, b, e):
+        """a @ b / np.matmul(a, b) as the einsum it is, when the operands are written so that their last axes can be named:
+             swapaxes(A, -1, -2) @ B                  einsum('...nd,...nD->...dD', A, B)          (also with one weight per row / column multiplied in)
+             (m[..., :, None, :] * conj(x)[..., None, :, :]) @ swapaxes(x, -1, -2)[..., None, :, :]
+                                                      einsum('...kt,...dt,...et->...kde', m, conj(x), x)   (broadcast factors with explicit unit axes)"""
+        general = self._matmul_by_labels(a, b, e)
+        if general is not None:
+            return general
+        sa, sb = self._last_two_swapped(a), self._last_two_swapped(b)
+        if (sa is None) != (sb is None):
+            if sa is not None:
+                letters, ops = ['nd', 'nD'], [sa, b]
+            else:
+                letters, ops = ['dn', 'Dn'], [a, sb]
+            # an operand scaled by one weight per row / column (w[..., None] * y) is a further operand of the contraction
+            extra = []
+            for k_, o_ in enumerate(list(ops)):
+                if o_.op == 'binop' and o_.args[0] == 'Mult':
+                    for w_, y_ in ((o_.args[1], o_.args[2]), (o_.args[2], o_.args[1])):
+                        if w_.op == 'sub' and w_.args[1].op == 'tuple' and len(w_.args[1].args[0]) == 2 and w_.args[1].args[0][0].op == 'const' \
+                                and w_.args[1].args[0][0].args[0] is Ellipsis and w_.args[1].args[0][1].op == 'const' and w_.args[1].args[0][1].args[0] is None:
+                            extra.append((letters[k_][0], w_.args[0]))
+                            ops[k_] = y_
+                            break
+                        # w[..., None, :] / np.expand_dims(w, -2): one weight per entry of the LAST axis
+                        wl_ = None
+                        if w_.op == 'sub' and w_.args[1].op == 'tuple' and len(w_.args[1].args[0]) == 3 and w_.args[1].args[0][0].op == 'const' \
+                                and w_.args[1].args[0][0].args[0] is Ellipsis and w_.args[1].args[0][1].op == 'const' and w_.args[1].args[0][1].args[0] is None \
+                                and w_.args[1].args[0][2].op == 'slice' and all(z_.op == 'const' and z_.args[0] is None for z_ in w_.args[1].args[0][2].args):
+                            wl_ = w_.args[0]
+                        elif w_.op == 'call' and w_.args[0].op == 'ref' and isinstance(w_.args[0].args[0], Lib) and w_.args[0].args[0].dotted == 'numpy.expand_dims' \
+                                and len(w_.args[1]) == 2 and not w_.args[2] and w_.args[1][1].op == 'const' and w_.args[1][1].args[0] == -2:
+                            wl_ = w_.args[1][0]
+                        if wl_ is not None:
+                            extra.append((letters[k_][1], wl_))
+                            ops[k_] = y_
+                            break
+            sub_ = ','.join(['...' + l_ for l_, _ in extra] + ['...' + l_ for l_ in letters]) + '->...dD'
+            return self._libcall('numpy.einsum', (const(sub_, e, self.fn),) + tuple(w_ for _, w_ in extra) + tuple(ops), e)
+        return None
+
+    def _matmul_by_labels(self, a, b, e):
+        """the general case: both operands of the matrix product are products of factors whose trailing axes are spelled out with `[..., None, :, :]` patterns of ONE
+        common length n >= 3 (so that the batch axes in front of the matrix axes are aligned by the source, not by broadcasting rules the terms do not show)"""
+        def is_full(x):
+            return x.op == 'slice' and all(y.op == 'const' and y.args[0] is None for y in x.args)
+
+        def is_none(x):
+            return x.op == 'const' and x.args[0] is None
+
+        def pattern(t):
+            # t = x[..., <None / :> * n]  ->  (x, [True for a kept axis / False for an inserted one]); else None
+            if t.op != 'sub' or t.args[1].op != 'tuple':
+                return None
+            items = t.args[1].args[0]
+            if len(items) < 2 or not (items[0].op == 'const' and items[0].args[0] is Ellipsis) or not all(is_full(x) or is_none(x) for x in items[1:]):
+                return None
+            return t.args[0], [is_full(x) for x in items[1:]]
+
+        def factors(t, labels, conj, out, depth=0):
+            # decompose t (trailing axes named by `labels`) into [(base term, letters of its trailing axes, conjugated?)]; False when a factor cannot be named
+            if depth > 8:
+                return False
+            if t.op == 'binop' and t.args[0] == 'Mult':
+                return factors(t.args[1], labels, conj, out, depth + 1) and factors(t.args[2], labels, conj, out, depth + 1)
+            if t.op == 'call' and not t.args[2] and len(t.args[1]) == 1 and t.args[0].op == 'ref' and isinstance(t.args[0].args[0], Lib) \
+                    and t.args[0].args[0].dotted in ('numpy.conj', 'numpy.conjugate'):
+                return factors(t.args[1][0], labels, not conj, out, depth + 1)
+            if t.op == 'call' and not t.args[1] and not t.args[2] and t.args[0].op == 'attr' and t.args[0].args[1] in ('conj', 'conjugate') and t.args[0].args[0].op != 'ref':
+                return factors(t.args[0].args[0], labels, not conj, out, depth + 1)
+            sw = self._last_two_swapped(t)
+            if sw is not None and len(labels) >= 2:
+                return factors(sw, labels[:-2] + [labels[-1], labels[-2]], conj, out, depth + 1)
+            pt = pattern(t)
+            if pt is not None:
+                base, kept = pt
+                if len(kept) != len(labels):
+                    return False
+                sub_labels = [l for l, k in zip(labels, kept) if k]
+                if not sub_labels:
+                    return False
+                return factors(base, sub_labels, conj, out, depth + 1)
+            if t.op in ('const',):
+                return False
+            out.append((t, ''.join(labels), conj))
+            return True
+
+        def width(t, depth=0):
+            # the length of the `[..., None, :]` patterns in t (all equal), 0 when there is none, -1 when they differ
+            if depth > 8:
+                return -1
+            if t.op == 'binop' and t.args[0] == 'Mult':
+                ws = {w for w in (width(t.args[1], depth + 1), width(t.args[2], depth + 1)) if w != 0}
+                return -1 if (-1 in ws or len(ws) > 1) else (ws.pop() if ws else 0)
+            if t.op == 'call' and len(t.args[1]) == 1 and not t.args[2] and t.args[0].op == 'ref' and isinstance(t.args[0].args[0], Lib) \
+                    and t.args[0].args[0].dotted in ('numpy.conj', 'numpy.conjugate'):
+                return width(t.args[1][0], depth + 1)
+            if t.op == 'call' and not t.args[1] and not t.args[2] and t.args[0].op == 'attr' and t.args[0].args[1] in ('conj', 'conjugate'):
+                return width(t.args[0].args[0], depth + 1)
+            pt = pattern(t)
+            if pt is not None:
+                return len(pt[1])
+            sw = self._last_two_swapped(t)
+            if sw is not None:
+                return width(sw, depth + 1)
+            return 0
+        wa, wb = width(a), width(b)
+        if -1 in (wa, wb) or max(wa, wb) < 3 or (wa and wb and wa != wb) or max(wa, wb) > 4:
+            return None
+        n = max(wa, wb)
+        if not wa or not wb:
+            return None          # one side without explicit unit axes: how its batch axes line up with the other side is not written down
+        batch = ['b', 'c'][:n - 2]
+        fa, fb = [], []
+        if not factors(a, batch + ['i', 'j'], False, fa) or not factors(b, batch + ['j', 'k'], False, fb):
+            return None
+        # every factor must have been named through a pattern of width n (a bare array among them has an unknown number of axes)
+        ops, subs = [], []
+        for base, letters, cj in fa + fb:
+            ops.append(self._libcall('numpy.conj', (base,), e) if cj else base)
+            subs.append('...' + letters)
+        sub_ = ','.join(subs) + '->...' + ''.join(batch) + 'ik'
+        return self._libcall('numpy.einsum', (const(sub_, e, self.fn),) + tuple(ops), e)
 
     @staticmethod
     def _index_kinds(idx):
